@@ -17,7 +17,7 @@ INV = ["InvKeptExactly", "InvIdempotent", "InvWidening", "InvFpAlwaysPasses", "I
 def slices(tier):
     big = tier == "thorough"
     LS = '{"car","pedestrian","unknown","bus","false_positive"}'
-    base = dict(XS="-3..3" if big else "{-3,-1,0,2}", YS="{-2,0,1}" if big else "{0,1}", LabelSet=LS, ConfSet="{10,20,50,70}", PtsSet="{0,3,9}", MaxObjs="1", Sample="0")
+    base = dict(XS="-3..3" if big else "{-3,-1,0,2}", YS="{-2,0,1}" if big else "{0,1}", LabelSet=LS, ConfSet="{10,20,50,70}", PtsSet="{0,3,9}", AttrVals="{0,1,2,3}" if big else "{0,1}", MaxObjs="1", Sample="0")
     sl = {}
     # lists over two targets have sum = 2 mod 4: the mean bound of a relaxed unknown estimate is never hit exactly
     xy = [fparams(T2, xmax="<<3,7>>", ymax="<<3,3>>"), fparams(T2, xmax="<<5,5>>", ymax="<<1,5>>", conf="<<50,20>>", minPts="<<3,9>>"),
@@ -29,9 +29,9 @@ def slices(tier):
     ringw = [fparams(T2, dmax="<<9,9>>", dmin="<<1,1>>"), fparams(T2, dmax="<<5,9>>", dmin="<<1,1>>", uuids="TRUE", ign="TRUE")]
     sl["ring"] = dict(base, ParamSet="{%s}" % ", ".join(ring), WideSet="{%s}" % ", ".join(ringw))
     nopos = [fparams(T2, conf="<<50,20>>", ign="TRUE"), fparams(T2, uuids="TRUE"), fparams(T3, conf="<<20,50,20>>"), fparams("<<>>")]
-    sl["labels_only"] = dict(base, XS="{0}", YS="{0}", ParamSet="{%s}" % ", ".join(nopos), WideSet="{}")
+    sl["labels_only"] = dict(base, AttrVals="{0,1,2,3}", XS="{0}", YS="{0}", ParamSet="{%s}" % ", ".join(nopos), WideSet="{}")
     sl["lists"] = dict(base, XS="{-2,0,3}", YS="{0,1}", ParamSet="{%s}" % ", ".join(xy[:2] + ring[:1]), WideSet="{}", MaxObjs="3",
-                       Sample="4000" if big else "400", PtsSet="{3,9}", ConfSet="{20,50,70}")
+                       Sample="4000" if big else "400", PtsSet="{3,9}", ConfSet="{20,50,70}", AttrVals="{0,1,2,3}")
     return sl
 
 
@@ -55,14 +55,16 @@ def build_objs(objs, rendering, ego):
     out = []
     for i, o in enumerate(objs):
         uu = ("in%d" if o["uuid"] else "out%d") % (i + 1)
-        attrs = [ATTR] if o["attr"] else []
+        attrs, nm = pipeline.attr_kwargs(o["attr"], o["label"])
         if rendering == "2d":
             ob = obj2d((5, 5), label=o["label"], score=o["conf"] / 100.0, uuid=uu, vid=i + 1)
             ob.semantic_label.attributes = attrs
+            ob.semantic_label.name = nm
             ob.pointcloud_num = o["pts"]
         else:
             ob = obj3d((o["x"], o["y"], 0.5), yaw=0.3 * i, label=o["label"], score=o["conf"] / 100.0, uuid=uu, vid=i + 1, points=o["pts"],
                        attributes=attrs, frame="map" if rendering == "map" else "base_link", ego=ego)
+            ob.semantic_label.name = nm
         out.append(ob)
     return out
 
